@@ -337,12 +337,17 @@ pub fn run_history_opt(rng: &mut Rng, init: Init, nunits: usize, oneshot: bool, 
     let config = Config { updater: Updater { name: init.name.clone(), version: Version::from(init.uver) },
         os: OS { platform: String::new(), version: init.osver.clone(), service_pack: String::new(), arch: String::new() },
         service_url: init.url.clone(), omaha_public_keys: None };
+    // the client also trusts two retired keys under other ids: the "wrong key" forgery (make_etag, kind 2) is signed with
+    // the first of them — a key the client trusts, but not the one the request named
     let cup_handler = init.cup.map(|(kid, key)| StandardCupv2Handler::new(&PublicKeys {
-        latest: PublicKeyAndId { id: kid, key: crate::streams::cup::signing_key(key).verifying_key() }, historical: vec![] }));
+        latest: PublicKeyAndId { id: kid, key: crate::streams::cup::signing_key(key).verifying_key() },
+        historical: vec![PublicKeyAndId { id: kid.wrapping_add(100), key: crate::streams::cup::signing_key((key + 1) % 5).verifying_key() },
+                         PublicKeyAndId { id: kid.wrapping_add(200), key: crate::streams::cup::signing_key((key + 3) % 5).verifying_key() }] }));
     let app_set = Rc::new(FMutex::new(HAppSet { apps: init.presets.clone(), sys: init.sys.clone() }));
     let time = HTime(hub.clone());
+    let storage = Rc::new(FMutex::new(HStorage(hub.clone())));
     let builder = StateMachineBuilder::new(HPolicy { hub: hub.clone(), time: time.clone() }, HHttp(hub.clone()), HInstaller(hub.clone()), HTimer(hub.clone()),
-        HMetrics(hub.clone()), Rc::new(FMutex::new(HStorage(hub.clone()))), config, app_set.clone(), cup_handler);
+        HMetrics(hub.clone()), storage.clone(), config, app_set.clone(), cup_handler);
     let flag = Arc::new(Flag(AtomicBool::new(false)));
     let mut cases = vec![];
     let start_mono = init.mono;
@@ -351,12 +356,19 @@ pub fn run_history_opt(rng: &mut Rng, init: Init, nunits: usize, oneshot: bool, 
 
     let mut runner = if oneshot {
         let stream = futures::executor::block_on(builder.oneshot_check());
-        Runner { hub: hub.clone(), stream: Box::pin(stream), handle: None, ctls: vec![], replies: vec![], flag, ended: false, polls: 0, stalled_wakeups: 0 }
+        Runner { hub: hub.clone(), stream: Box::pin(stream), handle: None, ctls: vec![], replies: vec![], flag, ended: false, polls: 0, stalled_wakeups: 0, contend: None, storage: None, app_set: None, contended: 0 }
     } else {
         let (handle, stream) = futures::executor::block_on(builder.start());
-        Runner { hub: hub.clone(), stream: Box::pin(stream), handle: Some(handle), ctls: vec![], replies: vec![], flag, ended: false, polls: 0, stalled_wakeups: 0 }
+        Runner { hub: hub.clone(), stream: Box::pin(stream), handle: Some(handle), ctls: vec![], replies: vec![], flag, ended: false, polls: 0, stalled_wakeups: 0, contend: None, storage: None, app_set: None, contended: 0 }
     };
 
+    // third perturbation: lock contention in mid-flight (see `Runner::contend`)
+    if rng.chance(1, 4) {
+        let prefix = rng.pick(&["E result", "E proto", "E sched", "E state", "E progress", "E response"]).to_string();
+        runner.contend = Some((prefix, rng.chance(2, 3)));
+        runner.storage = Some(storage.clone());
+        runner.app_set = Some(app_set.clone());
+    }
     // all unit environments are generated up front (the hub switches to the next one by itself at
     // each unit boundary); reboot-wait steps stay symbolic until run time
     let mut envs: Vec<(UnitEnv, String)> = vec![];
@@ -637,7 +649,7 @@ pub fn run_ctl(o: &Opts, rng: &mut Rng) -> Sink {
                 envs.push(e);
             }
             { let mut h = hub.lock().unwrap(); h.units = envs.iter().skip(1).cloned().collect(); h.env = envs[0].clone(); }
-            let mut runner = Runner { hub: hub.clone(), stream: Box::pin(stream), handle: Some(handle), ctls: vec![], replies: vec![], flag, ended: false, polls: 0, stalled_wakeups: 0 };
+            let mut runner = Runner { hub: hub.clone(), stream: Box::pin(stream), handle: Some(handle), ctls: vec![], replies: vec![], flag, ended: false, polls: 0, stalled_wakeups: 0, contend: None, storage: None, app_set: None, contended: 0 };
             if kind == 0 {
                 // gone: run some units, then drop the machine (its stream) and ask
                 let before = r.below(nunits as u64 + 1) as usize;
